@@ -253,8 +253,9 @@ Two more independent machines. `Ping`: every PING the peer sends (without ACK) i
 PING with ACK carrying the same eight octets; an acknowledgement nobody asked for is rejected;
 at the end of a quiescent history no PING is unanswered. `Push`: a client that advertised
 SETTINGS_ENABLE_PUSH = 0 treats a PUSH_PROMISE as a connection error — after the peer's
-PUSH_PROMISE it sends no frame at all (the GOAWAY of a connection error is not a frame of this
-model: the code never flushes it). -/
+PUSH_PROMISE it sends nothing but RST_STREAM for the streams it had open (the GOAWAY of a
+connection error is not a frame of this model; the code writes it without flushing, so it
+reaches the peer only when one of those RST_STREAM writes beats the close of the socket). -/
 
 structure Ping where
   /-- payloads of the peer's PINGs that are not acknowledged yet, oldest first -/
@@ -295,7 +296,12 @@ def Push.step (m : Push) : Event → Verdict Push
   | .p .settingsAck => .ok { m with acked := m.off }
   | .p _ => .ok m
   | .c f =>
-    if m.seen then .error "frame-after-refused-push-promise"
+    if m.seen then
+      -- tearing the connection down may reset the streams that were open (and send GOAWAY, which
+      -- is not a frame of this model); anything else means the client carried on
+      match f with
+      | .rst _ => .ok m
+      | _ => .error "frame-after-refused-push-promise"
     else match f with
       | .settings vals =>
         match lastSetting vals sEnablePush with
